@@ -2,8 +2,8 @@
   Driver for the graceful-shutdown LTS (C12), stream `serverconn`:
 
     consts                      → pollMs=<n> drainMs=<n> idleSecs=<n> readDlMs=<n> waits=<n> closes=<n>
-    variant                     → release=<asFound|afterDrain> closeIdles=<asFound|kickOnly>   (what the extractor saw)
-    admits <asFound|fixed|tree> <N> <Q> <budget> <event>…
+    variant                     → release=<asFound|afterDrain> closeIdles=<asFound|kickOnly> invokeDec=<deferred|lastStatement>   (what the extractor saw)
+    admits <asFound|fixed|atomic|repaired|leak|tree> <N> <Q> <budget> <event>…
         → ok <maxStates> <finalStates>        the LTS has a run with exactly this visible history
         → reject <i> <event> <states>         no run performs the first i events and then event i
         → budget <i>                          state set exceeded the budget (nothing decided)
@@ -15,6 +15,8 @@
   events (what the harness observes of one real `transport.TarsServer`; `c` = connection index in
   connect order, `r` = request id):
     C.c  client connected           S.c.r  client wrote request r     P.c.r  ParsePackage sees r complete at the head of the buffer
+    O.c.r  client wrote request r that needs no response (one-way packet, or Invoke returns an empty response)
+    A    Serve() returned (accept loop over; with a pool: the pool has been released)
     I.c.r  Invoke(r) entered        E.c.r  Invoke(r) returned         R.c.r  client received response r
     M.c  client received the close message        X.c  client read EOF        D.c  DoClose called (receiver closed the connection)
     H    Shutdown called            T.1 / T.0 / T.x  Shutdown returned (all closed / context expired / either)
@@ -26,7 +28,7 @@
   every other action of the LTS is internal (τ); `admits` closes the state set under τ after each event.
 
   actions for `run`: cn · sd.c.r · ac.c · rg.c · st.c · rd.c.n · re.c.<0|1> · ag.c · dp.c · eq.c · pt · pg ·
-    hs.c.i hf.c.i hw.c.i hd.c.i · dc.c · sc · cl · ax · rc · ps · rr · cm · or · cb · cv.c · cc · ce · cx ·
+    hs.c.i hf.c.i hw.c.i hk.c.i hd.c.i · sn.c.r · dc.c · sc · cl · ax · rc · ps · rr · cm · or · cb · cv.c · cc · ce · cx ·
     rR.c.i · rM.c · rX.c
 -/
 import Std.Data.HashSet
@@ -48,6 +50,8 @@ def splitDots (s : String) : List String :=
 inductive Ev
   | conn (c : Nat)
   | send (c r : Nat)
+  | sendNR (c r : Nat)
+  | served
   | parsed (c r : Nat)
   | inv (c r : Nat)
   | ended (c r : Nat)
@@ -65,6 +69,7 @@ def parseEv (tok : String) : Option Ev :=
   match splitDots tok with
   | ["H"] => some .shut
   | ["Q"] => some .quiet
+  | ["A"] => some .served
   | ["T", "1"] => some (.ret (some true))
   | ["T", "0"] => some (.ret (some false))
   | ["T", "x"] => some (.ret none)
@@ -80,7 +85,7 @@ def parseEv (tok : String) : Option Ev :=
     match parseNat? a, parseNat? b with
     | some a, some b =>
       match k with
-      | "S" => some (.send a b) | "P" => some (.parsed a b) | "I" => some (.inv a b)
+      | "S" => some (.send a b) | "O" => some (.sendNR a b) | "P" => some (.parsed a b) | "I" => some (.inv a b)
       | "E" => some (.ended a b) | "R" => some (.rsp a b)
       | _ => none
     | _, _ => none
@@ -115,6 +120,8 @@ def idleVisit (cfg : Cfg) (s : State) (c : Nat) : List State :=
 def fire (cfg : Cfg) (s : State) : Ev → List State
   | .conn c => if c = s.conns.length then (step cfg s .connect).toList else []
   | .send c r => (step cfg s (.send c r)).toList
+  | .sendNR c r => (step cfg s (.sendNR c r)).toList
+  | .served => if s.apc = .returned then [s] else []
   | .parsed c r =>
     match s.conns[c]? with
     | some k =>
@@ -196,7 +203,7 @@ def tauActions (fine : Bool) (s : State) : List Action :=
         match k.reqs[i]? with
         | some q =>
           match q.st with
-          | .finished => [Action.write c i]
+          | .finished => [Action.write c i, Action.skip c i]
           | _ => []
         | none => []
       recv ++ hs
@@ -285,6 +292,7 @@ up front so that `canon` may erase the list -/
 def dupSend : List Ev → List (Nat × Nat) → Bool
   | [], _ => false
   | .send c r :: es, seen => if seen.contains (c, r) then true else dupSend es ((c, r) :: seen)
+  | .sendNR c r :: es, seen => if seen.contains (c, r) then true else dupSend es ((c, r) :: seen)
   | _ :: es, seen => dupSend es seen
 
 partial def admitsLoop (cfg : Cfg) (fine : Bool) (budget : Nat) (toks : List String) :
@@ -322,6 +330,7 @@ def parseCfg (v : String) (n q : Nat) : Option Cfg :=
   | "fixed" => some { asFound (poolOf n q) with releaseAfterDrain := true }
   | "atomic" => some { asFound (poolOf n q) with ci := .atomic }
   | "repaired" => some (repaired (poolOf n q))
+  | "leak" => some { repaired (poolOf n q) with decDeferred := false }
   | "tree" => some (treeCfg (poolOf n q))
   | _ => none
 
@@ -346,7 +355,7 @@ def parseAct (tok : String) : Option Action :=
     match parseNat? a, parseNat? b with
     | some a, some b =>
       match k with
-      | "sd" => some (.send a b) | "rd" => some (.read a b) | "re" => some (.readErr a (b != 0))
+      | "sd" => some (.send a b) | "sn" => some (.sendNR a b) | "hk" => some (.skip a b) | "rd" => some (.read a b) | "re" => some (.readErr a (b != 0))
       | "hs" => some (.start a b) | "hf" => some (.fin a b) | "hw" => some (.write a b)
       | "hd" => some (.dec a b) | "rR" => some (.recvRsp a b)
       | _ => none
@@ -362,7 +371,7 @@ def pstName : PSt → String
 
 def stName : HSt → String
   | .queued => "q" | .handed => "h" | .running => "r" | .finished => "f"
-  | .wrote true => "W" | .wrote false => "w" | .done true => "D" | .done false => "d"
+  | .wrote true => "W" | .wrote false => "w" | .done true => "D" | .done false => "d" | .leaked => "L"
 
 def b01 (b : Bool) : String := if b then "1" else "0"
 
@@ -396,7 +405,8 @@ def handle (ws : List String) : String :=
     let c := treeCfg none
     let r := if c.releaseAfterDrain then "afterDrain" else "asFound"
     let ci := match c.ci with | .asFound => "asFound" | .atomic => "atomic" | .kickOnly => "kickOnly"
-    s!"release={r} closeIdles={ci}"
+    let d := if c.decDeferred then "deferred" else "lastStatement"
+    s!"release={r} closeIdles={ci} invokeDec={d}"
   | "admits" :: v :: n :: q :: b :: toks =>
     match parseNat? n, parseNat? q, parseNat? b with
     | some n, some q, some b =>
